@@ -58,4 +58,10 @@ CLAIMS = {
         note="Trusts simhap (reload loads the crt-list and PEM files; set/commit ssl cert replaces the PEM of a loaded file) and the SNI lookup order of HAProxy as implemented in hapcfg.SelectCert.",
         technique="stateful property-based testing (rapid) against a reference model of certificate selection, observed on a simulated HAProxy",
     ),
+    "C09": dict(
+        text="Metamorphic pairs of fresh syncs that differ only in a foreign-namespace object (present/absent, existing/dangling name) must produce identical behavioural normal forms whenever the reference's kind is denied, over every reference site, form, placement and allow/deny setting; allowed settings act as non-vacuity controls. Three bypasses found this way were repaired in /repo.",
+        design_ref="DESIGN.md section 3, C09",
+        note="The finite case space (5 sites x forms x placements x 7^4 settings x CLI x relation x b-uses) is sampled, not enumerated; normal form by harness/hapcfg; reads of a foreign secret are observed through the PEM file the facade writes when it reads one.",
+        technique="property-based testing (rapid): metamorphic relation between two worlds differing only in foreign-namespace objects",
+    ),
 }
